@@ -306,7 +306,7 @@ def run(plan: dict) -> dict:
 # coordinator side
 # ---------------------------------------------------------------------------
 
-FAULT_REGIONS = ["_lower_and_call", "wrapped", "lower_equation_with_plugin", "lower_jaxpr_with_plugins", "_activate_full_plugin_worlds_for_body", "_build_and_finalize_ir_model", "_trace_to_jaxpr", "apply_monkey_patches", "user_interface", "to_onnx"]
+FAULT_REGIONS = ["_lower_and_call", "wrapped", "lower_equation_with_plugin", "lower_jaxpr_with_plugins", "_activate_full_plugin_worlds_for_body", "_build_and_finalize_ir_model", "_trace_to_jaxpr", "apply_monkey_patches", "_optimize_graph_with_failure_policy", "to_onnx"]
 FX = ["flat", "flat_f64", "net", "outer", "fn_boundary", "fn_kw", "eqx_block", "plain", "ublock_pair", "two_same", "two_diff", "kwblock", "resconv_nchw", "resconv", "chanattn_nchw", "transpose_forest", "reshape_chain", "cf_cond", "cf_fori", "cf_while", "cf_scan", "cf_nested", "fn_boundary_f64", "autoflags"]
 _BIAS = ("nchw", "transpose", "conv", "resblock", "attention", "onnx_functions", "reshape", "vit", "cnn")
 
@@ -342,13 +342,17 @@ def gen_run(seed: int, run: int, reqs: list[dict], n_meas: int) -> dict:
     for q in picked:
         u = r.random()
         if u < 0.25:
-            other = r.choice(reqs)
-            if r.random() < 0.5:
+            # a failing conversion right before the measured request; half of the time it is the
+            # measured request itself that fails first and is then retried (the natural history)
+            other = q if r.random() < 0.5 else r.choice(reqs)
+            if r.random() < 0.4:
                 ops.append({**other, "fault": {"k_frac": round(r.random(), 6), "exc": r.choice(["SimFault", "SimInterrupt"])}})
             else:
-                # a fault inside a named region (function-body trace / lowering, finalisation ...) of a program with functions
-                fn_reqs = [q_ for q_ in reqs if any(t in q_["pid"] for t in ("outer", "net", "fn_", "two_", "kwblock", "ublock", "eqx_block", "plain", "onnx_functions"))] or reqs
-                ops.append({**r.choice(fn_reqs), "fault": {"region": [r.choice(FAULT_REGIONS), r.randrange(0, 40)], "exc": r.choice(["SimFault", "SimInterrupt"])}})
+                # n-th call inside a named region (function-body trace / lowering, finalisation ...);
+                # small n are much more likely to exist in every region
+                region = r.choice(FAULT_REGIONS)
+                nth = r.randrange(0, 45) if region == "to_onnx" else int(40 * r.random() ** 3)
+                ops.append({**other, "fault": {"region": [region, nth], "exc": r.choice(["SimFault", "SimInterrupt"])}})
         elif u < 0.35:
             ops.append({"op": "gc"})
         elif u < 0.5:
